@@ -63,6 +63,23 @@ func genRespSpec(rng *PRNG, name string) respSpec {
 	}
 	// a map whose values may be null: the entries are written from map values, which are not addressable
 	schemas["Counts"] = map[string]any{"type": "object", "required": []any{"name"}, "properties": map[string]any{"name": map[string]any{"type": "string"}}, "additionalProperties": map[string]any{"type": "integer", "nullable": true}}
+	// discriminated unions as request and response bodies. Naming convention shared with the value
+	// filler (rt.fill): a variant called <T>M<n> is selected by <T>M<n> itself and by the n mapping keys
+	// k1<T>M<n> .. kn<T>M<n>; a variant without the suffix only by its own name. UnionA: two keys
+	// for one member; UnionB: fewer mapping entries than members, the mapped member first.
+	variant := func(extra string, t map[string]any) map[string]any {
+		return map[string]any{"type": "object", "required": []any{"kind", extra}, "properties": map[string]any{"kind": map[string]any{"type": "string"}, extra: t}}
+	}
+	schemas["UCatM2"] = variant("lives", map[string]any{"type": "integer"})
+	schemas["UDog"] = variant("bark", map[string]any{"type": "string"})
+	schemas["UAntM1"] = variant("legs", map[string]any{"type": "integer"})
+	schemas["UBee"] = variant("hive", map[string]any{"type": "string"})
+	schemas["UCow"] = variant("milk", map[string]any{"type": "boolean"})
+	uref := func(n string) map[string]any { return map[string]any{"$ref": "#/components/schemas/" + n} }
+	schemas["UnionA"] = map[string]any{"oneOf": []any{uref("UCatM2"), uref("UDog")}, "discriminator": map[string]any{"propertyName": "kind",
+		"mapping": map[string]any{"k1UCatM2": "#/components/schemas/UCatM2", "k2UCatM2": "#/components/schemas/UCatM2"}}}
+	schemas["UnionB"] = map[string]any{"oneOf": []any{uref("UAntM1"), uref("UBee"), uref("UCow")}, "discriminator": map[string]any{"propertyName": "kind",
+		"mapping": map[string]any{"k1UAntM1": "#/components/schemas/UAntM1"}}}
 	hdrTypes := []map[string]any{{"type": "string"}, {"type": "integer"}, {"type": "boolean"}, {"type": "integer", "format": "int64"}, {"type": "number"}, {"type": "string", "format": "date-time"},
 		{"type": "array", "items": map[string]any{"type": "integer"}}, {"type": "array", "items": map[string]any{"type": "string"}}}
 	hdrNames := []string{"X-Next", "x-total", "X-Rate-Limit", "ETag", "x-flag", "Retry-After"}
@@ -99,14 +116,16 @@ func genRespSpec(rng *PRNG, name string) respSpec {
 		return hs, names
 	}
 	mkBody := func() (map[string]any, string, string) {
-		switch rng.Intn(7) {
+		switch rng.Intn(8) {
 		case 0:
 			return nil, "", "none"
+		case 7:
+			return map[string]any{"application/json": map[string]any{"schema": map[string]any{"$ref": "#/components/schemas/" + Pick(rng, []string{"UnionA", "UnionB"})}}}, "application/json", "json"
 		case 6:
 			return map[string]any{"application/json": map[string]any{"schema": map[string]any{"$ref": "#/components/schemas/Counts"}}}, "application/json", "json"
 		case 1:
 			// the documented media type is what has to be sent, parameters and letter case included
-			mt := Pick(rng, []string{"text/plain", "text/plain; charset=utf-8", "text/CSV; header=present", "application/vnd.acme.v2+xml"})
+			mt := Pick(rng, []string{"text/plain", "text/plain; charset=utf-8", "text/CSV; header=present", "application/vnd.acme.v2+xml", "application/problem+json"})
 			return map[string]any{mt: map[string]any{"schema": map[string]any{"type": "string"}}}, mt, "raw"
 		case 2:
 			return map[string]any{"application/json": map[string]any{"schema": map[string]any{"$ref": "#/components/schemas/Pets"}}}, "application/json", "json"
@@ -216,7 +235,7 @@ func genRespSpec(rng *PRNG, name string) respSpec {
 			if rng.Chance(1, 4) {
 				op["requestBody"] = map[string]any{"content": map[string]any{"application/octet-stream": map[string]any{"schema": map[string]any{"type": "string", "format": "binary"}}}}
 			} else {
-				bodySchema = Pick(rng, []string{"Pet", "Error", "Pets", "Tagged", "Counts"})
+				bodySchema = Pick(rng, []string{"Pet", "Error", "Pets", "Tagged", "Counts", "UnionA", "UnionB"})
 				content := map[string]any{"application/json": map[string]any{"schema": map[string]any{"$ref": "#/components/schemas/" + bodySchema}}}
 				if rng.Chance(1, 3) {
 					// JSON next to media types that sort before and after it: the JSON flavour is what the
@@ -579,7 +598,7 @@ func facetResp(args []string) error {
 		// Tagged: an allOf member with its own additionalProperties schema; goag reads the members as
 		// one merged object, JSON Schema judges every member against the whole object (no value
 		// satisfies both readings), so the body is left out there
-		fmt.Fprintf(vw, "%s\t%s\n", c.ID, v.validate(specs[wi.spec].Base, op.Method, op.Path, o[a+6:b], op.BodySchema == "Tagged"))
+		fmt.Fprintf(vw, "%s\t%s\n", c.ID, v.validate(specs[wi.spec].Base, op.Method, op.Path, o[a+6:b], op.BodySchema == "Tagged" || strings.HasPrefix(op.BodySchema, "Union")))
 	}
 	vw.Flush()
 	vf.Close()
